@@ -520,13 +520,13 @@ func ruleLinMap(c *Ctx, prefix string) {
 				bad = append(bad, "constructor does not return a fresh allocator")
 				continue
 			}
-			s, _ := e.St.ReadLocal("new@" + al.Name() + ".start")
-			en, _ := e.St.ReadLocal("new@" + al.Name() + ".end")
-			bm, _ := e.St.ReadLocal("new@" + al.Name() + ".bitmap")
+			s, _ := e.St.ReadLocal("new@" + anm(al) + ".start")
+			en, _ := e.St.ReadLocal("new@" + anm(al) + ".end")
+			bm, _ := e.St.ReadLocal("new@" + anm(al) + ".bitmap")
 			if !regexp.MustCompile(`^`+u32(`\$0`)+`$`).MatchString(s) || !regexp.MustCompile(`^`+u32(`\$1`)+`$`).MatchString(en) {
 				bad = append(bad, fmt.Sprintf("start/end are not the 32-bit values of the two arguments (start=%s end=%s)", shortName(s), shortName(en)))
 			}
-			if !regexp.MustCompile(`^` + reQ(pkgBitset) + `\.New(@t\d+)?\(conv<uint>\(\(\(` + reQ(en) + ` - ` + reQ(s) + `\) \+ 1\)\)\)$`).MatchString(bm) {
+			if !regexp.MustCompile(`^` + reQ(pkgBitset) + `\.New(@(?:[\w$]+·)?t\d+)?\(conv<uint>\(\(\(` + reQ(en) + ` - ` + reQ(s) + `\) \+ 1\)\)\)$`).MatchString(bm) {
 				bad = append(bad, "the bitmap length is not end − start + 1 (one bit per address, both ends included): "+shortName(stripAt(bm)))
 			}
 			gt := -1
@@ -576,7 +576,7 @@ func ruleSizeCap(c *Ctx, prefix string) {
 			}
 			n++
 			v := ex.Canon(st, s.Val).S
-			m := regexp.MustCompile(`^net\.CIDRMask(@t\d+)?\((.*),128\)$`).FindStringSubmatch(v)
+			m := regexp.MustCompile(`^net\.CIDRMask(@(?:[\w$]+·)?t\d+)?\((.*),128\)$`).FindStringSubmatch(v)
 			if m == nil {
 				bad = append(bad, "the returned mask is not a 128-bit CIDR mask: "+shortName(v))
 				return
@@ -641,13 +641,13 @@ func ruleSizeCap(c *Ctx, prefix string) {
 				bad = append(bad, "constructor does not return a fresh allocator")
 				continue
 			}
-			pg, _ := e.St.ReadLocal("new@" + a.Name() + ".page")
-			ct, _ := e.St.ReadLocal("new@" + a.Name() + ".containing")
-			bm, _ := e.St.ReadLocal("new@" + a.Name() + ".bitmap")
+			pg, _ := e.St.ReadLocal("new@" + anm(a) + ".page")
+			ct, _ := e.St.ReadLocal("new@" + anm(a) + ".containing")
+			bm, _ := e.St.ReadLocal("new@" + anm(a) + ".bitmap")
 			if pg != "$1" || ct != "$0" {
 				bad = append(bad, fmt.Sprintf("pool geometry is not (pool, size) as given (containing=%s page=%s)", shortName(ct), shortName(pg)))
 			}
-			if !regexp.MustCompile(`^` + reQ(pkgBitset) + `\.New(@t\d+)?\((conv<uint>\()?\(1 << conv<uint>\(` + reQ(order) + `\)\)\)?\)$`).MatchString(bm) {
+			if !regexp.MustCompile(`^` + reQ(pkgBitset) + `\.New(@(?:[\w$]+·)?t\d+)?\((conv<uint>\()?\(1 << conv<uint>\(` + reQ(order) + `\)\)\)?\)$`).MatchString(bm) {
 				bad = append(bad, "the bitmap does not have 2^(size − pool length) bits: "+shortName(stripAt(bm)))
 			}
 			neg, big := -1, -1
